@@ -1635,6 +1635,10 @@ private:
   void updateCache(const std::string &key, const std::vector<std::uint8_t> &value,
                    std::chrono::system_clock::time_point expiry) const
   {
+    if (_config.maxCacheSize == 0)
+    {
+      return; // caching disabled: nothing to evict, nothing to insert
+    }
     std::unique_lock<std::shared_mutex> lock(_cacheMutex);
     if (_cache.size() >= _config.maxCacheSize)
     {
